@@ -1081,6 +1081,7 @@ static Result execPack(const std::string& line) {
       if (pack.size() != (size_t)endPos) problem = "resize(" + std::to_string(endPos) + ") left size " + std::to_string(pack.size());
     } else {
       size_t before = pack.size();
+      pack.seek(0);  // enlarge() is about the buffer, wherever the cursor stands
       pack.enlarge(extra);
       if (pack.size() != before + (size_t)extra) problem = "enlarge(" + std::to_string(extra) + ") changed the size from " + std::to_string(before) + " to " + std::to_string(pack.size());
     }
